@@ -684,35 +684,117 @@ class Fn:
         return False
 
     def local_value(self, l, point):
-        """value term of local l just before point (bb, i)"""
+        """value term of local l just before point (bb, i); i == len(stmts) is just before the terminator,
+        i == len(stmts)+1 is after it (on the normal edge)"""
+        self._build_vg()
         bb, i = point
-        key = (l, bb, i)
-        if key in self._vmemo:
-            return self._vmemo[key]
-        # find the last def of l in bb before i
-        dl = self.defs().get(l, ())
-        best = None
-        for rec in dl:
-            if rec[0] == bb and rec[1] < i:
-                if best is None or rec[1] > best[1]:
-                    best = rec
-        if best is None:
-            v = self._block_entry_value(l, bb)
-        else:
-            v = self._def_value(l, best)
-        self._vmemo[key] = v
+        evs = self._events.get(bb)
+        if evs:
+            best = None
+            for (j, ll, v) in evs:
+                if ll == l and j < i:
+                    best = v
+            if best is not None:
+                return best
+        return self._block_entry_value(l, bb)
+
+    def _block_entry_value(self, l, bb):
+        self._build_vg()
+        env = self._env_in.get(bb)
+        if env is None:
+            return ("unknown", "unreached")
+        v = env.get(l)
+        if v is None:
+            return ("unknown", "dead")
         return v
 
-    def _def_value(self, l, rec):
+    def _build_vg(self):
+        if getattr(self, "_vg_done", False) or getattr(self, "_vg_building", False):
+            return
+        self._vg_building = True
+        self._events = {}
+        self._env_in = {}
+        self._env_out = {}
+        self._phi_defs = {}
+        order = self.rpo()
+        headers = {lp.header: lp for lp in self.loops()}
+        defs = self.defs()
+        modified = {}
+        for h, lp in headers.items():
+            modified[h] = {l for l, recs in defs.items() if any(r[0] in lp.body for r in recs)}
+        live = self.live_in()
+        processed = set()
+        for bb in order:
+            preds = [p for p in self.pred[bb] if p in self.reachable()]
+            env = {}
+            if bb == 0:
+                for l in range(1, self.nargs + 1):
+                    env[l] = ("arg", l)
+            else:
+                done = [p for p in preds if p in processed]
+                keys = set()
+                for p in done:
+                    keys |= set(self._env_out[p].keys())
+                if bb in headers:
+                    lp = headers[bb]
+                    for l in keys:
+                        if not self._is_live(l, bb):
+                            continue
+                        if l in modified[bb]:
+                            env[l] = ("loopphi", (bb, l))
+                        else:
+                            vals = []
+                            for p in done:
+                                if p not in lp.body:
+                                    v = self._env_out[p].get(l)
+                                    if v is not None and v not in vals:
+                                        vals.append(v)
+                            if len(vals) == 1:
+                                env[l] = vals[0]
+                            elif vals:
+                                env[l] = ("phi", (bb, l), tuple(vals))
+                else:
+                    for l in keys:
+                        if not self._is_live(l, bb):
+                            continue
+                        vals = []
+                        ops = []
+                        for p in done:
+                            v = self._env_out[p].get(l, ("unknown", "dead"))
+                            ops.append(v)
+                            if v not in vals:
+                                vals.append(v)
+                        if len(vals) == 1:
+                            env[l] = vals[0]
+                        else:
+                            env[l] = ("phi", (bb, l), tuple(ops))
+            self._env_in[bb] = env
+            self._events[bb] = []
+            cur = dict(env)
+            recs = sorted([(r[1], l, r) for l, rl in defs.items() for r in rl if r[0] == bb], key=lambda x: x[0])
+            for (i, l, rec) in recs:
+                v = self._def_value_fwd(l, rec)
+                self._events[bb].append((i, l, v))
+                cur[l] = v
+            self._env_out[bb] = cur
+            processed.add(bb)
+        for h, lp in headers.items():
+            preds = [p for p in self.pred[h] if p in self.reachable() and p in processed]
+            for l, v in self._env_in.get(h, {}).items():
+                if v == ("loopphi", (h, l)):
+                    ops = tuple(self._env_out[p].get(l, ("unknown", "dead")) for p in preds)
+                    self._phi_defs[(h, l)] = ("phi", (h, l), ops)
+        self._phi_preds = {h: [p for p in self.pred[h] if p in self.reachable() and p in processed] for h in headers}
+        self._vg_building = False
+        self._vg_done = True
+
+    def _def_value_fwd(self, l, rec):
         bb, i, kind, path, payload = rec
-        key = ("def", l, bb, i)
-        if key in self._vmemo:
-            return self._vmemo[key]
         if kind == "full":
-            v = self.rvalue(payload["rv"], (bb, i))
-        elif kind == "calldest":
-            v = self.call_term(payload, bb)
-        elif kind in ("part", "store"):
+            return self.rvalue(payload["rv"], (bb, i))
+        if kind == "calldest":
+            return self.call_term(payload, bb)
+        if kind in ("part", "store"):
             before = self.local_value(l, (bb, i))
             if payload.get("k") == "assign":
                 val = self.rvalue(payload["rv"], (bb, i))
@@ -720,82 +802,33 @@ class Fn:
                 val = self.call_term(payload, bb)
             else:
                 val = ("unknown", "setdiscr")
-            v = ("upd", before, self._norm_path(path, (bb, i)), val)
-        elif kind == "mod":
+            return ("upd", before, self._norm_path(path, (bb, i)), val)
+        if kind == "mod":
             before = self.local_value(l, (bb, i))
-            v = ("mod", before, (bb, payload.get("resolved") or payload.get("callee")), path)
-        else:
-            v = ("unknown", kind)
-        self._vmemo[key] = v
-        return v
-
-    def _block_entry_value(self, l, bb):
-        key = ("entry", l, bb)
-        if key in self._vmemo:
-            return self._vmemo[key]
-        if not self._is_live(l, bb):
-            v = ("unknown", "dead")
-            self._vmemo[key] = v
-            return v
-        # loop headers first (outermost first), so that walks started inside a loop stop at its header phi
-        encl = [lp for lp in self.loops() if bb in lp.body and lp.header != bb]
-        encl.sort(key=lambda lp: -len(lp.body))
-        for lp in encl:
-            if ("entry", l, lp.header) not in self._vmemo and self._is_live(l, lp.header):
-                self._block_entry_value(l, lp.header)
-        if key in self._vmemo:
-            return self._vmemo[key]
-        is_header = any(lp.header == bb for lp in self.loops())
-        guard = ("loopphi", (bb, l)) if is_header else ("unknown", "cycle")
-        if bb == 0:
-            v = ("arg", l) if 1 <= l <= self.nargs else ("unknown", "uninit")
-            self._vmemo[key] = v
-            return v
-        preds = [p for p in self.pred[bb] if p in self.reachable()]
-        for lp in self.loops():
-            if lp.header == bb and not any(r[0] in lp.body for r in self.defs().get(l, ())):
-                # loop-invariant local: only the entry edges carry a value
-                preds = [p for p in preds if p not in lp.body]
-        if not preds:
-            v = ("unknown", "nopred")
-            self._vmemo[key] = v
-            return v
-        if len(preds) == 1:
-            self._vmemo[key] = guard
-            v = self.local_value(l, (preds[0], len(self.stmts(preds[0])) + 1))
-            self._vmemo[key] = v
-            return v
-        self._vmemo[key] = guard
-        ops = []
-        for p in preds:
-            ops.append(self.local_value(l, (p, len(self.stmts(p)) + 1)))
-        me = ("loopphi", (bb, l))
-        distinct = []
-        for o in ops:
-            if o == me:
-                continue
-            if o not in distinct:
-                distinct.append(o)
-        if len(distinct) == 1 and not _mentions(distinct[0], me):
-            v = distinct[0]
-        else:
-            v = ("phi", (bb, l), tuple(ops))
-        self._vmemo[key] = v
-        return v
+            return ("mod", before, (bb, payload.get("resolved") or payload.get("callee")), path)
+        return ("unknown", kind)
 
     def call_term(self, t, bb):
+        self._build_vg()
         key = ("call", bb)
         if key in self._vmemo:
             return self._vmemo[key]
         self._vmemo[key] = ("unknown", "reccall")
         n = len(self.stmts(bb))
-        args = tuple(self.operand(a, (bb, n)) for a in t["args"])
+        args = tuple(self._snapshot(self.operand(a, (bb, n)), (bb, n)) for a in t["args"])
         callee = t.get("resolved") or t.get("callee")
         if callee is None:
             callee = ("fnptr", self.operand(t["fnptr"], (bb, n)))
         v = ("call", callee, args, bb)
         self._vmemo[key] = v
         return v
+
+    def _snapshot(self, a, point):
+        """a reference to a local passed to a call denotes the local's value at the time of the call"""
+        if a[0] == "refplace":
+            v = self.local_value(a[2], point)
+            return ("ref", a[1], self._project(v, list(a[3]), point))
+        return a
 
     def rvalue(self, rv, point):
         k = rv["k"]
@@ -848,12 +881,20 @@ class Fn:
         return any(p in live for p in ptrs.get(l, ()))
 
     def phi_def(self, t):
-        """definition of a ('loopphi', (bb, l)) name: the phi term at that loop header (or t itself)"""
+        """definition of a ('loopphi', (bb, l)) name: ('phi', (bb, l), operands in the order of header_preds(bb))"""
+        self._build_vg()
         if t[0] == "loopphi":
-            bb, l = t[1]
-            v = self._block_entry_value(l, bb)
-            return v
+            return self._phi_defs.get(t[1], t)
         return t
+
+    def loop_carried(self, h):
+        """locals that carry a value around the loop with header h (live at the header and assigned in the loop)"""
+        self._build_vg()
+        return sorted(l for l, v in self._env_in.get(h, {}).items() if v == ("loopphi", (h, l)))
+
+    def header_preds(self, h):
+        self._build_vg()
+        return self._phi_preds.get(h, [])
 
     # convenience --------------------------------------------------------------------------------------------------
     def arg_terms(self, bb):
